@@ -168,6 +168,14 @@ func (c *AppenderRefs) writeToAppenders(l Level, b []byte) {
 	}
 }
 
+// writeRawToAppenders forwards pre-formatted bytes to every child appender,
+// regardless of the level range of the reference.
+func (c *AppenderRefs) writeRawToAppenders(b []byte) {
+	for _, r := range c.AppenderRefs {
+		r.Write(b)
+	}
+}
+
 // SyncLogger is a synchronous logger that immediately forwards events to appenders.
 type SyncLogger struct {
 	LoggerBase
@@ -192,7 +200,7 @@ func (c *SyncLogger) Append(e *Event) {
 
 // Write writes raw bytes directly to appenders.
 func (c *SyncLogger) Write(b []byte) {
-	c.writeToAppenders(MaxLevel, b)
+	c.writeRawToAppenders(b)
 }
 
 // BufferFullPolicy specifies what to do when an async buffer is full.
@@ -264,7 +272,7 @@ func (c *AsyncLogger) Start() error {
 				}
 				PutEvent(x)
 			case []byte:
-				c.writeToAppenders(MaxLevel, x)
+				c.writeRawToAppenders(x)
 			default: // for linter
 			}
 		}
